@@ -19,6 +19,9 @@ CLAIMS = {
  "C04": ("model_checking",
    "Parse (generic Parser[int] without/with comments+comfort+keywords) and value.New().Generate are executed on N symbolic bytes ranging over all 256 values each (N<=2 quick, <=3 thorough; unicode classes as range-set formulas), on valid programs with one (thorough: two) symbolic byte overwritten/inserted at every position, on every truncation, and on concrete deep-nesting/unterminated inputs: every path ends with AST xor error, no panic escapes, every path stays within the step budget (termination).",
    "inputs longer than the bound, stack exhaustion by deep nesting and the 64 KiB end of the quantifier are outside the claim; 'linear-ish time' is checked only as a step budget of 3M SSA instructions on these short inputs"),
+ "C07": ("model_checking",
+   "55 built-in cases (map, accept, reduce, mapReduce, sum, size, first, last, single, top, skip, reverse, set, append, index, indexWhere, present, combine, combine3, combineN, number, compact, cross, merge, +, iir, iirCombine, visit, fsm, min, max, minMax, mean, ~, numeric functions abs/sign/sqr/int/float/%/round, 8 kinds of misuse) applied to receiver lists of 0..3 (thorough 5) SYMBOLIC 64-bit ints, a second symbolic list and a symbolic numeric argument a in [-2,6] (indices, counts incl. 0, negatives and values beyond the size): the outcome equals an independent eager reference over Go slices for every value (defined exactly when the model is, deep-equal result); order/orderRev/orderLess are checked as sorted permutations, groupBy*/uniqueInt as partitions with distinct keys (any group order); string methods (cut with symbolic position/length, len, case, trim, contains, indexOf, replace, split, ~, toInt, toFloat, misuse) on a unicode pool of concrete receivers.",
+   "list length bound; callbacks from a fixed pool; ties in minMax/min/max may resolve to any tied item; mean only checked for definedness (float rounding); movingWindow only on lists of <=1 (thorough 2) elements; transcendental functions, sprintf, createInterpolation/linearReg/bisection/createLowPass not covered"),
  "C08": ("model_checking",
    "35 pipelines source -> lazy stages -> short-circuit consumer (first, top(k), present, indexWhere, ~, single, skip+first, accept, combine/combine3/combineN, number, +, iir, compact, multiUse of those, merge; sources numbers(n), literal lists, evaluated/ordered/reversed lists) with a counting host function inside the stage closures: the source length n is SYMBOLIC and only assumed > 40 (so 10^11 is one of its values), the decisive position k symbolic in 0..6, the position f of a failing element symbolic in 0..12. Per path: the number of closure calls at return and again at quiescence (after all goroutines have been run, runaway ones preemptively) is at most the documented demand (first 1, top(k) k+1, present/indexWhere/~ k+2, single 3, combine 3, ..., unconsumed pipelines 0); an error of an element behind the demanded prefix does not surface; every path finishes within 4M SSA steps although n is unbounded.",
    "read-ahead in forced-parallel mode is outside (sequential clock); bounds are the ones observed on the pinned tree plus the read-ahead of one the property grants; known finding: merge producers of the iterator dependency"),
